@@ -48,7 +48,9 @@ Inductive case :=
         (a_creates b_creates : list str) (a_sql b_sql : list (list tok))
         (errors : list bool) (tables : list str)
 | CEvo (dc : decl) (keep : list str) (rows : list (list Z)) (ops : list evo_op) (steps : list evostep)
-| CIdem (a b : decl) (ops : list (nat * bool * bool))          (* 0 create / 1 drop / 2 raw DROP TABLE, class a?, if-flag *)
+| CIdem (a b : decl) (ops : list (nat * bool * bool * bool * bool))
+        (* op, class a?, if-flag, f1, f2.  op 0 createTable(ifNotExists, createJoinTables=f1, createIndexes=f2) /
+           1 dropTable(ifExists, dropJoinTables=f1) / 2 raw DROP TABLE / 3 createJoinTables(ifNotExists) / 4 createIndexes() *)
         (steps : list (bool * list str * list str))
 (* a foreign table `decoy` is created out of band first; then class a: createTable(ifNotExists=True)
    twice, dropTable(ifExists=True) twice *)
@@ -205,16 +207,18 @@ Definition evo_init (dc : decl) (rows : list (list Z)) : evo_state :=
                 db_indexes := db_indexes db |} |}.
 
 (* ---------- idem cases *)
-Fixpoint idem_views (a b : decl) (db : dbstate) (ops : list (nat * bool * bool))
+Fixpoint idem_views (a b : decl) (db : dbstate) (ops : list (nat * bool * bool * bool * bool))
   : list (bool * list str * list str) :=
   match ops with
   | [] => []
-  | (op, who, flag) :: r =>
+  | (op, who, flag, f1, f2) :: r =>
       let dc := if who : bool then a else b in
       let '(db', e) := match op with
-                       | O => create_table_op dc flag db
-                       | S O => drop_table_op dc flag db
-                       | _ => eng_drop db (table_of dc)      (* out of band: DROP TABLE of the class's table only *)
+                       | 0%nat => create_table_full dc flag f1 f2 db
+                       | 1%nat => drop_table_full dc flag f1 db
+                       | 2%nat => eng_drop db (table_of dc)      (* out of band: DROP TABLE of the class's table only *)
+                       | 3%nat => create_join_tables dc flag db
+                       | _ => create_indexes dc db
                        end in
       (e, map t_name (db_tables db'), map fst (db_indexes db')) :: idem_views a b db' r
   end.
@@ -248,6 +252,7 @@ Definition agree (c : case) : bool :=
       list_eqb (fun x y => Bool.eqb (fst (fst x)) (fst (fst y)) && same_set (snd (fst x)) (snd (fst y))
                            && same_set (snd x) (snd y))
                (idem_views a b (fst (eng_create {| db_tables := []; db_indexes := [] |} decoy [s2l "zz"]))
-                  [(0%nat, true, true); (0%nat, true, true); (1%nat, true, true); (1%nat, true, true)])
+                  [(0%nat, true, true, true, true); (0%nat, true, true, true, true);
+                   (1%nat, true, true, true, true); (1%nat, true, true, true, true)])
                steps
   end.
